@@ -1,10 +1,24 @@
 """What MANIFEST.json claims, per property."""
 HOOK_COMMITS = ["77b2c42", "6128e10", "5f416f7", "71aa134", "8a2b985", "97ca607"]
-FIX_COMMITS = ["5da2d24", "9b55744", "1ceb643", "2d49340", "9d87992"]
+FIX_COMMITS = ["5da2d24", "9b55744", "1ceb643", "2d49340", "9d87992", "737054a"]
 NOTES = ("Every check: TLC model-checks the module's design on small constants, then binds it to /repo's current working "
          "tree (rebuilt on every run with -tags verif). Exit 2 = infrastructure problem, never a verdict.")
 NOT_APPLICABLE = {}
 CHECKS = {
+    "C19": {
+        "text": "FzfWalker.tla (tree built by AddFile/AddDir/AddLinkToFile/AddLinkToDir/AddDanglingLink; Expected(roots, file/dir/"
+                "follow/hidden, skip patterns) per the manual) is model-checked for exactly-once, resolves-to-entry, pruned-"
+                "subtrees-disjoint, declarative completeness, option algebra and root prefix. TLC enumerates all trees up to 4 "
+                "entries over {a,.h,skip,'b c','n\\nl'}, all 5-entry trees over {a,.h,skip}, a seeded 5-entry sample, times 16 "
+                "option sets, 9 skip lists, 9 root sets, each with its predicted multiset. The harness materialises each tree, "
+                "runs the real readFiles and, for a subset, the real binary on a pty, and the multisets are compared. Random "
+                "trees up to 60 entries are judged by Judge_Walker.",
+        "design_ref": "DESIGN.md §6 C19",
+        "note": "Link cycles, unreadable dirs, special files, overlapping roots and Windows separators not modelled; roots-as-entry, "
+                "leading-separator skip patterns and root spellings are CODE-DERIVED; 5-entry trees over the full name set are "
+                "sampled. Trusted: TLC, the Go tree materialiser.",
+        "technique": "TLA+ spec + TLC exhaustive MC; TLC-enumerated cases replayed on real code and binary; TLC judges random executions",
+    },
     "C08": {
         "text": "FzfPipeline.tla models reader, coordinator (event box with overwrite semantics, handlers in any order), matcher "
                 "(two-slot request box, merger cache, per-chunk cache with narrowing, cancellation between chunks) and terminal, "
